@@ -24,6 +24,13 @@ for pid in props:
     })
 na = [{"property_id": p, "reason": src['not_applicable'].get(p, "check not built yet (engine under construction); planned per DESIGN.md section 7")} for p in props if p not in claimed]
 commits = src.get('hook_commits', [])
+try:
+    # the hook commits are the commits of /repo whose subject starts with "verif:" (contract files, build tag verif)
+    out = subprocess.check_output(["git", "-C", "/repo", "log", "--format=%H", "--grep=^verif:"], text=True).split()
+    if out:
+        commits = list(reversed(out))
+except Exception:
+    pass
 m = {
     "version": 1,
     "setup_cmd": "cd /verif/engine && GOFLAGS=-mod=mod GOPROXY=off GOSUMDB=off GOTOOLCHAIN=local go build -o ../bin/gfverify .",
